@@ -156,6 +156,7 @@ func CmdCheck(args []string) int {
 	timeout := 10 * time.Second
 	if *tier == "thorough" {
 		timeout = 60 * time.Second
+		CoverCallsites = true // also probe every call whose arguments a contract pins for reachability
 	}
 	work := filepath.Join(verifDir, "work", *prop)
 	os.RemoveAll(work)
@@ -229,8 +230,15 @@ func CmdCheck(args []string) int {
 	ccfg.WorkDir = filepath.Join(work, "cover")
 	Discharge(covers, ccfg)
 	vacuous := []string{}
+	unreachableCalls := []string{}
 	for _, c := range covers {
 		if c.Status == "discharged" && c.Solver != "trivial" {
+			if strings.Contains(c.Name, "#cover:callsite:") {
+				// a pinned call that cannot be reached under the contract (dead on this platform, or a clause that
+				// is vacuously true there): reported in the evidence, not an alarm
+				unreachableCalls = append(unreachableCalls, c.Name)
+				continue
+			}
 			vacuous = append(vacuous, c.Name)
 		}
 	}
@@ -348,6 +356,7 @@ func CmdCheck(args []string) int {
 		"known_findings_hit": len(knownHit),
 		"cover_probes":     len(covers),
 		"cover_probes_vacuous": len(vacuous),
+		"pinned_calls_unreachable_under_contract": unreachableCalls,
 		"tool_errors":      toolErrs,
 		"samples":          samples,
 		"explanation":      "every obligation is (path condition and assumptions) => goal, negated and checked unsat; obligations counted here exclude those listed in known_findings.txt",
